@@ -69,7 +69,8 @@ def desc(t):
             cs = '(lbuf %d %d %s %d)' % (int(c[1]), c[2], c[3], int(c[4]))
         return '(seq %s %s)' % (cs, desc(t[2]))
     if k == 'tup':
-        return '(tup %s%s)' % (t[1], ''.join(' ' + desc(x) for x in t[2]))
+        # 'xstruct' is a structure declared from outside with NOP_EXTERNAL_STRUCTURE: the same type for the model
+        return '(tup %s%s)' % ('struct' if t[1] == 'xstruct' else t[1], ''.join(' ' + desc(x) for x in t[2]))
     if k == 'wrap':
         return '(wrap %d %s)' % (t[1], desc(t[2]))
     if k == 'map':
@@ -228,19 +229,25 @@ class Emitter:
         return out
 
     def struct(self, t):
-        key = ('struct', desc(t))
+        ext = t[1] == 'xstruct'
+        key = ('struct', ext, desc(t))
         if key in self.done:
             return self.done[key]
         ms = self._members(t[2])
-        name = 'St%d' % len(self.done)
+        name = ('XSt%d' if ext else 'St%d') % len(self.done)
         unb = any(m[0] == 'seq' and m[1][0] == 'lbuf' and m[1][4] for m in t[2])
         body = 'struct %s {\n' % name
         for d, _, _, _ in ms:
             body += '  %s\n' % d
-        body += '  NOP_STRUCTURE(%s, %s);\n' % (name, ', '.join(a for _, a, _, _ in ms))
-        if unb:
-            body += '  NOP_UNBOUNDED_BUFFER(%s);\n' % name
+        if not ext:
+            body += '  NOP_STRUCTURE(%s, %s);\n' % (name, ', '.join(a for _, a, _, _ in ms))
+            if unb:
+                body += '  NOP_UNBOUNDED_BUFFER(%s);\n' % name
         body += '};\n'
+        if ext:
+            body += 'NOP_EXTERNAL_STRUCTURE(%s, %s);\n' % (name, ', '.join(a for _, a, _, _ in ms))
+            if unb:
+                body += 'NOP_EXTERNAL_UNBOUNDED_BUFFER(%s);\n' % name
         body += 'namespace vh { template <> struct Glue<%s> {\n' % name
         body += '  static void build(%s& o, const Sx& x) { NeedSeq(x, "seq"); if (x.l.size() != %d) throw BadValue{"member count"};\n' % (name, len(ms) + 1)
         for _, _, b, _ in ms:
@@ -479,10 +486,15 @@ def core_pool():
     P += [t for t, _ in cx_family()]
     # finding K1: Optional/Result whose payload can itself start with NIL/ERR (not prefix-disjoint)
     P += [('opt', ('opt', S('u8'))), ('res', 1, 'i32', ('res', 2, 'u8', S('u8')))]
+    # structures declared from outside (NOP_EXTERNAL_STRUCTURE): members of every kind, nested, in containers and entries
+    xst = lambda *ts: ('tup', 'xstruct', list(ts))
+    x1 = xst(S('u8'), ('str', 1), ('opt', S('i64')))
+    P += [x1, xst(lbuf(4, 'u8', S('i16')), S('u8')), vec(x1), xst(x1, vec(S('u32'))), ('tab', 31, [(1, True, x1), (2, True, S('u8'))])]
     seen, out = set(), []
     for t in P:
-        if desc(t) not in seen:
-            seen.add(desc(t)); out.append(t)
+        key = desc(t) + ('|x' if any(x[0] == 'tup' and x[1] == 'xstruct' for x in walk(t)) else '')
+        if key not in seen:
+            seen.add(key); out.append(t)
     return out
 
 
